@@ -16,7 +16,7 @@ from ..util import result, viol
 ID = "C03"
 RULE = (
     "finite sweep over tuples (G in {B_d, SO-part, C2^d, C4 (d=2), single reflection, trivial, diag swap / C3 / C4z}, "
-    "d in {2,3}, M, k, p): d=2: M=1..5, k=0..3 (k=4 for M<=3); d=3: M=1..3, k=0..2 (k=3 for M<=2), M=4,5 for k<=1 "
+    "d in {2,3}, M, k, p): d=2: M=1..5, k=0..4 (all of the statement's range); d=3: M=1..5, k=0..2, and k=3 for M<=3 (seed count M^d*d^k <= 1200) "
     "(thorough; quick: d=2 M<=4,k<=2 for B_2/C2^2/C4 + d=3 M<=3,k<=1). Each tuple: both scale modes. Non-trivial: expected "
     "dimension >= 1 (dimension-0 tuples are still checked: the family must be empty); distinct by tuple."
 )
@@ -24,7 +24,7 @@ RULE += " Also: operator lists in shuffled order (2 of 3 cases), a decoy request
 EXHAUSTIVE = {"quick": True, "thorough": True}
 ASSUMPTIONS = [
     "reference action; character formula (1/|G|) sum_g fix(g) tr(g)^k det(g)^p evaluated in integers",
-    "d=3, M>=4 with k>=2 is swept only for the two HEAVY tuples of the thorough tier (d=3, M=5, k=3; minutes and ~1 GB each); d=3 k=4 is outside the swept bound",
+    "d=3 with M^3*3^k > 1200 (k=3 for M>=4, k=4 for M>=3) is swept only for the two HEAVY tuples of the thorough tier (d=3, M=5, k=3; minutes and ~1 GB each); d=3 k=4 is outside the swept bound except M<=2",
 ]
 ANCHORS = [
     "ginjax.geometric.common:get_unique_invariant_filters",
@@ -53,20 +53,17 @@ def tuples(tier):
                     for p in (0, 1):
                         out.append((G, 3, M, k, p))
         out += [("refl", 2, 3, 1, 0), ("trivial", 2, 2, 1, 1), ("B", 2, 5, 1, 0), ("B", 2, 3, 3, 1), ("B", 3, 2, 2, 0), ("C3", 3, 3, 1, 0)]
+        out += [("B", 2, 5, 4, 0), ("C4", 2, 4, 4, 1), ("B", 3, 4, 2, 1)]  # the far end of the statement's range that is still cheap
         return out
     for G in ("B", "SO", "C2d", "C4", "refl", "diag", "trivial"):
         for M in range(1, 6):
             for k in range(0, 5):
-                if k == 4 and M > 3:
-                    continue
                 for p in (0, 1):
                     out.append((G, 2, M, k, p))
     for G in ("B", "SO", "C2d", "refl", "C3", "C4z", "trivial"):
         for M in range(1, 6):
             for k in range(0, 4):
-                if M >= 4 and k > 1:
-                    continue
-                if k == 3 and M > 2:
+                if k == 3 and M > 3:
                     continue
                 for p in (0, 1):
                     out.append((G, 3, M, k, p))
@@ -87,7 +84,7 @@ def cases(tier, seed):
         dim_upper = (M**D) * (D**k)
         if G in ("trivial", "refl", "diag", "C3") and dim_upper > 220:
             continue
-        if dim_upper > 800:
+        if dim_upper > 1200:
             continue
         out.append({"G": G, "D": D, "M": M, "k": k, "p": p})
     # heavier tuples first so that shards balance
